@@ -53,7 +53,7 @@ CHECKS = {
         "out-of-bounds RETURNDATACOPY/STOP) is assembled into one contract per node. Each node returns a fixed-layout record of what it observes "
         "(CALLER, ORIGIN, ADDRESS, CALLVALUE, storage, transient storage, balance, child success flags, RETURNDATASIZE and child records) and the root "
         "finally dumps storage/transient/balance/code of every account; the whole record must equal the reference EVM's for x in {0,1,balance,balance+1}. "
-        "Further families: callees whose outcome branches on the symbolic input with caller writes after the call, value-bearing self-calls, two creations at the same address (same CREATE2 salt and init code that reverts iff it receives no value: a failed creation must leave no account behind, a successful one makes the second collide). Stuck paths and uncovered inputs are violations too.",
+        "Further families: callees whose outcome branches on the symbolic input with caller writes after the call, value-bearing self-calls, callees that return or revert with fewer bytes than the caller's pre-filled return window, two creations at the same address (same CREATE2 salt and init code that reverts iff it receives no value: a failed creation must leave no account behind, a successful one makes the second collide). Stuck paths and uncovered inputs are violations too.",
         "Trusted: mc/refevm.py call/create semantics (Appendix B.1), mc/calltree.py generator. Created addresses are abstract (taken from halmos's trace, "
         "consistency checked through later reads).",
         "DESIGN.md §4 C09",
@@ -89,7 +89,7 @@ CHECKS = {
         "model_checking",
         "bounded-exhaustive enumeration of (per-path outcome vector x solver reply vector x --early-exit x --cache-solver x completion order x reply-delivery order) for a generated k-path test, each executed by the real run_contract / _main with a scripted solver and compared with a reference verdict function",
         "A generated test with k <= 2 (thorough 3) guarded paths plus a default path; each path ends in success, revert, Panic(1), the DSTest fail flag or an unsupported opcode (stuck). The reply to each path's query is scripted from {sat + model, sat + model interpreting an abstraction followed by the refined query's reply, unsat (with an unsat core when the "
-        "query names its assertions), unsat with an empty core, unknown, time limit expired, empty output, garbage, non-zero exit with sat, crash} (quick: 8 of them), with and without --early-exit and --cache-solver. Concurrent queries are completed in every order (--solver-threads = number of queries, delayed replies), and for tests with a stuck path the two orders `replies delivered "
+        "query names its assertions), unsat with an empty core, unknown, time limit expired, empty output, garbage, non-zero exit with sat, crash} (quick: 8 of them), with and without --early-exit and --cache-solver. Concurrent queries are completed in every order (--solver-threads = number of queries, delayed replies), and for single-query tests the done-callback of the solver future is additionally delayed (callbacks-last), and for tests with a stuck path the two orders `replies delivered "
         "before / after the main thread confirms the stuck path` are both taken. The TestResult exit code must equal the reference verdict FAIL > ERROR > TIMEOUT > ERROR(stuck) > ERROR(all reverted) > PASS computed from the collection of outcomes alone; through _main (stub forge) the process exit code is non-zero iff the selected test did not pass.",
         "Trusted: the reference verdict function (DESIGN B.3) and the scripted solver in props/c05_verdict.py (seam: halmos.solve.PopenFuture replaced in the harness process; the subprocess layer itself is C17's subject). Completion orders are produced with real solver threads and delays, not with a controlled scheduler.",
         "DESIGN.md §4 C05",
@@ -126,8 +126,8 @@ CHECKS = {
         "model_checking",
         "bounded-exhaustive enumeration of loop / limit programs x --loop, --width, --depth values x placements (regular test, setUp, invariant target call, second contract with the same test signature) x solver replies for stuck paths, each run end to end by the real run_contract and compared with a brute force on a reference EVM",
         "Programs: `i = 0; while (i < n) i++; if (i == K) Panic(1)` in two loop shapes (exit on the taken branch / back edge on the taken branch), nested loops, concrete trip counts 0..6, a concrete loop containing a symbolic branch, a four-path test, a test whose failing path is long, a test with an unsupported opcode on one branch; "
-        "configurations --loop 1,2,3,6, --width 1,2,3, --depth 40,100, a scripted solver answering unknown / garbage for the stuck-path query. Placements: regular check_* tests, setUp() (concrete and fresh-symbol trip counts), target functions spin/spind(uint256) called during invariant testing at depth 1..3, and two contracts "
-        "with the same test signature run in one process. Oracle per test: if the brute force on the reference EVM finds a failing input within the bounds and halmos reports PASS, a warning naming the limit must have been logged for that test (or bounded loops reported); tests with only concrete loop conditions must be FAIL and never "
+        "configurations --loop 1,2,3,6, --width 1,2,3, --depth 40,100, a scripted solver answering unknown / garbage for the stuck-path query. Placements: regular check_* tests, setUp() (concrete and fresh-symbol trip counts), target functions spin/spind(uint256) called during invariant testing at depth 1..3, two contracts "
+        "with the same test signature run in one process, two overloads of one test name in one contract, and a target function that stops at an unsupported opcode. Oracle per test: if the brute force on the reference EVM finds a failing input within the bounds and halmos reports PASS, a warning naming the limit must have been logged for that test (or bounded loops reported); tests with only concrete loop conditions must be FAIL and never "
         "carry a loop-bound warning; a path stopped at an unsupported opcode - in the test or in setUp(), at the top level or 1-3 call frames deep - must never leave the test a clean PASS; a symbolic setUp() loop of which exactly one successful path survives the cut must carry the loop-bound warning; in invariant mode the warning is demanded for every invariant test that relies on a cut frontier, whichever runs first.",
         "Trusted: mc/refevm.py, mc/invgen.py BFS, the program generators in props/c10_bounds.py, mc/solverstub.py. Warnings are read from the halmos loggers (rebinding of handlers in the harness process).",
         "DESIGN.md §4 C10",
@@ -139,7 +139,7 @@ CHECKS = {
         "Seams (module attributes rebound in the harness): Path.to_smt2 and solve.dump. For every path handed to the solver by run_contract on the generated regular tests (26 static guards incl. add/mul/div/mod/sdiv/smod/exp/addmod/mulmod/keccak/storage, dynamic parameters) and on invariant projects at depth 2 - all of which extend a sliced "
         "setUp or frontier state - with and without --cache-solver: the query text parses, has as many assertions as the path has conditions, each structurally equal (else equal after simplification) to the corresponding condition, ids equal to the conditions' ids, cache mode wraps each as `(=> |id| c)`; the dumped file has "
         "the logic header, one (check-sat), (get-model), and in cache mode produce-unsat-cores, get-unsat-core and exactly one named assertion per id. refine() is applied to every query with an abstraction: only declare-fun f_evm_bv* lines may change, none may stay declared, and every produced definition (mul/udiv/urem/sdiv/srem at 256, 264 "
-        "and 512 bits) is evaluated on a 10x10 boundary grid against the exact EVM operation (x/0 = x%0 = 0, signed cases incl. INT_MIN/-1). Histories: for every ordered pair (thorough: permutation) of four tests that constrain a symbol created in setUp(), the set of queries of the joint run must equal the union of the sets each test produces when run alone (differential oracle for constraints leaking between paths that extend the same state).",
+        "and 512 bits) is evaluated on a 10x10 boundary grid against the exact EVM operation (x/0 = x%0 = 0, signed cases incl. INT_MIN/-1). A test that calls svm.createCalldata (a cheatcode with several replies, forking on the literal condition `true`) must yield one counterexample per reply. Histories: for every ordered pair (thorough: permutation) of four tests that constrain a symbol created in setUp(), the set of queries of the joint run must equal the union of the sets each test produces when run alone (differential oracle for constraints leaking between paths that extend the same state).",
         "Trusted: z3's SMT-LIB parser and printer round trip (structural equality after re-parsing), the EVM reference arithmetic in props/c11_query.py. Solver replies are scripted (mc/solverstub.py) so that every query is refined; a subset runs with the real z3.",
         "DESIGN.md §4 C11",
         "A",
@@ -150,7 +150,7 @@ CHECKS = {
         "Every signature with 1-3 parameters over ABI type trees (base types uint256, uint8, int128, address, bool, bytes4, bytes32, bytes, string; T[], T[1], T[2], tuples; nesting <= 3) x 8 configurations "
         "(--default-array-lengths / --default-bytes-lengths / --array-lengths incl. unordered lists and per-name overrides; named parameters and the unnamed ones solc emits as "") is built by halmos.calldata.mk_calldata. The result is flattened to (constant byte | byte k of symbol s) atoms "
         "and, for every combination of candidate lengths, decoded by an ABI decoder written from the specification: offsets concrete and in range, every leaf a whole, distinct, otherwise unused symbol, leaf regions disjoint, every size "
-        "symbol heading exactly one length word. A generated reader program (CALLDATALOAD of every length word) is run on the real SEVM, also with a second symbolic calldata registered on the same path and with the calldata created on a parent path that the executing path extends: the returned length tuples must be "
+        "symbol heading exactly one length word. The candidate lists halmos derives are compared with an independent reading of the configuration. A generated reader program (CALLDATALOAD of every length word) is run on the real SEVM, also with a second symbolic calldata registered on the same path and with the calldata created on a parent path that the executing path extends: the returned length tuples must be "
         "exactly the product of the candidate lists. Unsupported types (fixedMxN, ufixed, function) must raise.",
         "Trusted: the atom flattener and ABI decoder in props/c12_calldata.py. Narrow types are full-word symbols by design (documented over-approximation). Products above 512 combinations are restricted to all-min, all-max and single deviations (counted as capped).",
         "DESIGN.md §4 C12",
@@ -206,7 +206,7 @@ CHECKS = {
         "stateless, deviation/preemption-bounded exploration (CHESS style) of the real halmos/processes.py and solve.solve_low_level under a cooperative scheduler with simulated subprocesses; invariants evaluated on every complete schedule",
         "halmos/processes.py runs unmodified: threading.{Thread,Lock,RLock,Event,Condition}, concurrent.futures' Condition, the thread pool that shutdown(wait=False) uses, Popen, psutil and time are scheduler-owned shims (module attributes rebound in "
         "the harness process); scheduling points are every shim operation plus every source line of the racy functions of processes.py (sys.settrace). Process exit, communicate()-timeout expiry, spawn failure and a process ignoring SIGTERM (the grace wait then raises psutil.TimeoutExpired and only kill() ends it) are environment choices. For 11 harnesses "
-        "(submit racing shutdown(wait=False|True), two jobs with a graceful shutdown and an independent waiter, a job with a time limit, submit after shutdown, graceful then forceful shutdown, two submitters, spawn failure, solve_low_level with 5 s / 300 ms / no limit "
+        "(submit racing shutdown(wait=False|True), two jobs with a graceful shutdown and an independent waiter, a job with a time limit, submit after shutdown, graceful then forceful shutdown (directly and through ExecutorRegistry.shutdown_all), two submitters, spawn failure, solve_low_level with 5 s / 300 ms / no limit "
         "and with a concurrent early-exit shutdown) every schedule with <= 1 deviation (thorough: <= 2 for the small harnesses) from the default schedule is executed to completion. Invariants per execution: no deadlock or livelock, no uncaught exception, "
         "every accepted future completes and its waiters get the process output, a job whose limit expired surfaces as TimeoutExpired / `unknown` and never as a result, the limit handed to the process layer is the configured one, once shutdown() has returned "
         "nobody is still or newly waiting on a live process, submit after shutdown is refused, no process is alive at the end. A free-running pass with real threads and real echo/sleep/sh subprocesses checks the simulated protocol.",
@@ -221,7 +221,7 @@ CHECKS = {
         "For each option (quick: 12 representative incl. bool, countable, int, choice and every structured type; thorough: all 56 fields) every stack of <= 4 (thorough 5) layers over {config file, contract annotation, function annotation, "
         "command line}, each built by the real argparse/TOML parsers and setting the option or not with values that include the falsy ones (0, empty string, '*', false), is resolved and compared with the reference fold (source rank, then recency). "
         "--solver-command vs --solver over all source pairs and both application orders. Every value of the structured grammars (timeouts with units and fractions, error-code sets, array-length maps, CSV lists, trace events) round-trips through "
-        "unparse/parse and through the `python -m halmos.config` TOML emission + TomlParser; 58 malformed strings must be rejected by the parser, the command line and the config file. Annotation scoping: generated projects with every subset of "
+        "unparse/parse and through the `python -m halmos.config` TOML emission + TomlParser; native (non-string) TOML values must mean what the same text means on the command line or be rejected; contract-level annotations are written in every documented layout (continuation lines, mid-line tags, several tags); 58 malformed strings must be rejected by the parser, the command line and the config file. Annotation scoping: generated projects with every subset of "
         "five annotation placements over two contracts that share function signatures x toml x command line are run through halmos.__main__._main (stub forge) and the configuration every setUp()/test actually receives - value and the source it is attributed to - is compared with the fold.",
         "Trusted: the reference fold (Appendix B.4) and the option value tables in props/c18_config.py. The scoping observation rebinds halmos.__main__.run_test/setup in the harness process (no source hook).",
         "DESIGN.md §4 C18",
@@ -234,7 +234,7 @@ CHECKS = {
         "(quick: length<=4 with every symbolic region; thorough: <=5 with every region and <=6 with every prefix/suffix split), in two code "
         "representations. For each contract every observable of the decoder (len, valid_jumpdests, byte reads, decode_instruction at every pc, "
         "slice on the whole (start,size) grid) is compared with an independent reference decoder, and every JUMP/JUMPI program over short "
-        "bodies is executed by the real SEVM.run and compared with a reference interpreter; (EXT)CODECOPY programs that read across and past the end of their own code (offsets end-2..end+1, 0, 2^200; sizes 0..64; dirty and fresh memory; MSIZE and CODESIZE afterwards) are compared with the reference EVM.",
+        "bodies is executed by the real SEVM.run and compared with a reference interpreter; (EXT)CODECOPY programs that read across and past the end of their own code (offsets end-2..end+1, 0, 2^200; sizes 0..64; dirty and fresh memory; MSIZE and CODESIZE afterwards) and loops whose head is a JUMPDEST at pc 0 are compared with the reference EVM.",
         "Trusted: the 20-line reference decoder/interpreter in props/c19_decode.py; z3 substitute+simplify used only to ground extract/concat terms. "
         "Not claimed: random strings up to 4 KiB (sampling).",
         "DESIGN.md §4 C19",
@@ -243,8 +243,8 @@ CHECKS = {
     "C20": (
         "model_checking",
         "explicit-state exploration of test histories (every ordered subset / doubling of the tests of a generated contract, repeated runs in one process, three injective symbol-suffix generators), each executed by the real run_contract and compared test by test with the solo result and with a brute force on a reference EVM",
-        "One generated contract with fourteen tests chosen to expose leaks: a failing and a passing test, a test that writes the storage variable every other test reads, a test that computes keccak(p) at run time and a test that reads the constant slot keccak(p) written by setUp, two tests that re-read calldata after a branch (one can never "
-        "fail, one fails for exactly one input: sibling-path isolation), two invariant tests sharing the frontier cache, a pair reading the code size / code hash of a symbolic address created in setUp (alias candidates), and a pair for configuration layers (a test that needs three loop iterations under the contract-level annotation --loop 4, a test with the function-level annotation --loop 1). Histories: every test doubled, every ordered pair, selected (thorough: all) ordered triples, the full list in both orders; a subset again with reversed and multiplicative uid() generators and run twice in one process. "
+        "One generated contract with fifteen tests chosen to expose leaks: a failing and a passing test, a test that writes the storage variable every other test reads, a test that computes keccak(p) at run time and a test that reads the constant slot keccak(p) written by setUp, two tests that re-read calldata after a branch (one can never "
+        "fail, one fails for exactly one input: sibling-path isolation), two invariant tests sharing the frontier cache, a test that TSTOREs and lets the target TLOAD the same slot (per-account transient storage), a pair reading the code size / code hash of a symbolic address created in setUp (alias candidates), and a pair for configuration layers (a test that needs three loop iterations under the contract-level annotation --loop 4, a test with the function-level annotation --loop 1). Histories: every test doubled, every ordered pair, selected (thorough: all) ordered triples, the full list in both orders; a subset again with reversed and multiplicative uid() generators and run twice in one process. "
         "Oracle: the normalised result of every test in every history (exit code, path counts, number of counterexamples, validity flags, replay outcome of each valid counterexample on the reference EVM, bounded loops) equals its solo result; solo results agree with a brute force (PASS: no failing input; FAIL: expected input set; invariant verdicts at depth 2).",
         "Trusted: mc/refevm.py, mc/e2e.py, mc/invgen.py. Concrete model values are not compared across runs (a solver may return any model): their replay is. uid() is rebound in the harness process (seam).",
         "DESIGN.md §4 C20",
